@@ -256,8 +256,8 @@ def evaluate(ctx, case):
     bb = ctx.build(scb)
     if not bb.ok:
         return [], {}
-    rb = common.run_one(bb.exe, base_plan(p).text(), timeout=120)
-    rv = common.run_one(b.exe, p.text(), timeout=120)
+    rb = common.run_one(bb.exe, base_plan(p).text(), timeout=ctx.run_timeout)
+    rv = common.run_one(b.exe, p.text(), timeout=ctx.run_timeout)
     viols, mv = compare(sc, p, rb, rv)
     if case.meta.get('kind') == 'user' and sc.is_interactive_mode() and sc.model_safe() and p.sources[0].sched == [1]:
         ov, _ = overread_check(sc, p, rv)
